@@ -225,5 +225,6 @@ Inv_HistoryIsRange == hb = {x \in 1..hlast : x >= hfirst} /\ hist = hb
 Inv_ProxyMatchesAbstract == \A r \in Readers : pPres[r] <=> rd[r] # "none"
 
 GenEdge == (GenK > 0 /\ RandomElement(1..GenK) = 1) =>
-             PrintT("REPLAY " \o ToJson([rel |-> RelW0, tl |-> ~VolW0, hist |-> Depth, frag |-> 64, acts |-> trail']))
+             PrintT("REPLAY " \o ToJson([rel |-> RelW0, tl |-> ~VolW0, hist |-> Depth, frag |-> 64, acts |-> trail',
+                                          shared |-> (RandomElement(1..3) = 1)]))
 ==========================================================================
